@@ -25,6 +25,10 @@ func init() {
 		switch {
 		case len(a) >= 2 && a[0] == "world":
 			c11worldCase(c, a[1:])
+		case len(a) == 4 && a[0] == "authp":
+			lo, _ := strconv.Atoi(a[1])
+			hi, _ := strconv.Atoi(a[2])
+			c11authp(c, lo, hi, strings.Split(a[3], ","))
 		case len(a) == 3 && a[0] == "align":
 			c11align(c, c02parseFlags(a[1]), c02parseEPs(a[2]))
 		case len(a) == 4 && (a[0] == "fits" || a[0] == "noop"):
@@ -203,6 +207,8 @@ func runC11(c *ctx) {
 		}
 	}
 	c.stat("align_exhaustive_grid", 1)
+	// the auth proxy port allocator against Model/C11AuthP (c11authp.go)
+	runC11authp(c, gen.New(c.seed^0xa07b))
 	// C11_ONLY_WORLD=1 (debugging aid): only the alignSlots grid and the world-level mode
 	if os.Getenv("C11_ONLY_WORLD") == "" {
 		runC11multi(c, r.Fork())
